@@ -123,6 +123,7 @@ def _prep_databook(env):
     par.pop.name = "pop"
     par.fcn_str = "f" if env.get("has_fcn") else None
     par.preallocate = lambda t, dt: None
+    par.update = lambda *a, **k: None  # the precomputed function's values are whatever the pre-state holds
     cp = _NS()
     cp.name = "p"
     cp.meta_y_factor = env.get("meta", 1.0)
@@ -149,6 +150,20 @@ CONTRACTS["model:Model.build#databook_values"] = dict(
          "len(par.vals) == len(series) and all((par.vals[i] == min(max(series[i] * par.scale_factor, par.limits[0]), par.limits[1])) if par.limits is not None else (par.vals[i] == series[i] * par.scale_factor) for i in range(len(series)))"),
     ],
     defined_props=["C06"])
+
+
+# the same loop body for a parameter whose function is precomputed before integration (par.update() fills the values): whatever the
+# function produced, the values that leave Model.build lie inside the framework limits ("finally clipped ... before it drives any flow")
+CONTRACTS["model:Model.build#precomputed_values"] = dict(
+    schema=schema, fragment={"iter": "pars", "body_contains": "cascade_par.meta_y_factor"},
+    params={"par": "obj:Parameter", "parset": "const:None"},
+    ghost_params={"meta": "real", "has_y": "bool", "yf": "real", "has_skip": "bool", "has_fcn": "bool", "has_values": "bool", "nothing": "const:None"},
+    stubs={"cascade_par.meta_y_factor": "meta", "par.pop.name in cascade_par.y_factor": "has_y", "cascade_par.y_factor[par.pop.name]": "yf",
+           "par.pop.name in cascade_par.skip_function": "has_skip", "par.fcn_str": "has_fcn", "cascade_par.has_values(par.pop.name)": "has_values",
+           "par.preallocate(self.t, self.dt)": "nothing", "par.update()": "nothing"},
+    requires=["not has_skip", "has_fcn", "par._precompute", "par.limits is not None", _lim_ok],
+    ensures=[("C06.precomputed_function_values_are_clipped_into_limits", "all(par.limits[0] <= par.vals[i] and par.vals[i] <= par.limits[1] for i in range(len(par.vals)))")],
+    defined_props=["C06"], replay_prepare=_prep_databook)
 
 
 # ---- Parameter.set_dynamic on a dependency chain  C = g(B),  B = f(A),  A overwritten by a program (C06: a function of a
